@@ -568,6 +568,7 @@ func c12(r *engine.Run) {
 
 	// ---- automatic change address: every assignment of k owners to k spent outputs ------------------------------------------
 	autoChange := c12AutoChange(r, outcomes)
+	httpPart := c12HTTP(r, outcomes)
 
 	// ---- vacuity -----------------------------------------------------------------------------------------------------------
 	hist := outcomes.Map()
@@ -608,6 +609,7 @@ func c12(r *engine.Run) {
 			"destination_lists": len(dlists), "manual_hours": manualHours, "share_factors": []string{"0", "0.5", "1", "0.3333"}},
 		"samples":                  samples,
 		"automatic_change_address": autoChange,
+		"request_histories_through_the_http_handler": httpPart,
 	})
 }
 
